@@ -345,6 +345,11 @@ func (e *Env) selector(n *ast.SelectorExpr) *Val {
 		}
 		fail("callee has no parameter %q", n.Sel.Name)
 	}
+	if id, ok := n.X.(*ast.Ident); ok && id.Name == "local" {
+		if _, bound := e.vars["local"]; !bound {
+			return c.Load(e.st, e.localGhost(n.Sel.Name))
+		}
+	}
 	// qualified identifier pkg.Name ?
 	if id, ok := n.X.(*ast.Ident); ok {
 		if _, bound := e.vars[id.Name]; !bound && e.lookupCell(id.Name) == nil {
